@@ -6,6 +6,7 @@ fn main() {
     let mut seed: u64 = 1;
     let mut n_gen: usize = 40;
     let mut out: Option<String> = None;
+    let mut uniform = false;
     let mut i = 1;
     while i < args.len() {
         match args[i].as_str() {
@@ -17,6 +18,10 @@ fn main() {
                 n_gen = args[i + 1].parse().expect("n-gen");
                 i += 2;
             }
+            "--uniform" => {
+                uniform = true;
+                i += 1;
+            }
             "--out" => {
                 out = Some(args[i + 1].clone());
                 i += 2;
@@ -27,8 +32,8 @@ fn main() {
             }
         }
     }
-    let cat = catalogue::catalogue(seed, n_gen);
-    let src = emit::emit(&cat, seed, n_gen);
+    let cat = if uniform { catalogue::uniform(seed, n_gen) } else { catalogue::catalogue(seed, n_gen) };
+    let src = emit::emit(&cat, seed, n_gen, uniform);
     match out {
         Some(p) => {
             std::fs::write(&p, src).expect("write");
